@@ -77,10 +77,50 @@ def cases(tier, seed, rng):
             lines.append('uscalable %s %s' % (S(x), S(y)))
             lines.append('uscale %s %s' % (S(x), S(y)))
     out.append(Case(lines, 'gen:rejections'))
+    out.append(Case(retrieval_lines(tier, rng), 'gen:retrieval-invariance'))
     return out
 
+# --- retrieval transparency: a request expressed in a larger-prefix unit with numerically rescaled values -------------
+SI_EXP = {'Y': 24, 'Z': 21, 'E': 18, 'P': 15, 'T': 12, 'G': 9, 'M': 6, 'k': 3, 'h': 2, 'da': 1, '': 0, 'd': -1, 'c': -2, 'm': -3,
+          'u': -6, 'n': -9, 'p': -12, 'f': -15, 'a': -18, 'z': -21, 'y': -24}
+
+def retrieval_lines(tier, rng):
+    from fractions import Fraction
+    from vlib.tok import f64, lst
+    lines = []
+    prefs = list(SI_EXP)
+    n = 14
+    for base in ('s', 'V', 'Hz'):
+        for d in (2.0 ** -13, 2.0 ** -10, 2.0 ** -16, 0.25, 1.0, 3.0):          # sample spacing in the REQUEST unit
+            for pa in (['m', 'u', '', 'k', 'n'] if tier == 'quick' else prefs):
+                for pr in prefs:
+                    k = SI_EXP[pr] - SI_EXP[pa]
+                    if k < 0 or k > 12:
+                        continue            # the library multiplies the request by 10^k: exact only for k >= 0
+                    si = d * 10.0 ** k      # the same spacing in the AXIS unit
+                    if Fraction(si) != Fraction(d) * Fraction(10) ** k:
+                        continue
+                    axis_unit, req_unit = pa + base, pr + base
+                    dims = '[S:%s:~:%s]' % (f64(si), S(axis_unit))
+                    i, j = rng.randrange(0, n - 4), rng.randrange(1, 4)
+                    pf, ef = i * d, j * d                       # request values (exact: d is dyadic or small)
+                    p_axis, e_axis = i * si, j * si             # the same request written in the axis unit
+                    ok = (Fraction(pf) * Fraction(10) ** k == Fraction(pf * 10.0 ** k) == Fraction(p_axis)
+                          and Fraction(pf + ef) * Fraction(10) ** k == Fraction((pf + ef) * 10.0 ** k) == Fraction(p_axis + e_axis)
+                          and Fraction(pf + ef) == Fraction(pf) + Fraction(ef))
+                    if not ok:
+                        continue
+                    for rm in ('incl', 'excl'):
+                        lines.append('tag_data [%d] %s %s %s %s %s' % (n, dims, lst([f64(pf)]), lst([f64(ef)]), lst([S(req_unit)]), rm))
+                        lines.append('tag_data [%d] %s %s %s %s %s' % (n, dims, lst([f64(p_axis)]), lst([f64(e_axis)]), lst([S(axis_unit)]), rm))
+                        lines.append('slice [%d] %s %s %s %s %s' % (n, dims, lst([f64(pf)]), lst([f64(pf + ef)]), lst([S(req_unit)]), rm))
+                        lines.append('mtag_data1 [%d] %s %s 1 %s %s 0 %s' % (n, dims, lst([f64(pf)]), lst([f64(ef)]), lst([S(req_unit)]), rm))
+    if tier == 'quick' and len(lines) > 2400:
+        lines = lines[::max(1, len(lines) // 2400)]
+    return lines
+
 def nontrivial(case, tags):
-    return any(t.startswith('usplit3') or t in ('uscale3', 'uscalec', 'uscale.ok') for t in tags)
+    return any(t.startswith('usplit3') or t in ('uscale3', 'uscalec', 'uscale.ok') or t.endswith('.ok') for t in tags)
 
 def signature(f):
     return '%s:%s:%s' % (f.kind, f.tag().split('.')[0], f.rule())
